@@ -42,6 +42,12 @@ SeqRun(s, t, p, fs, en, b, ob, sn, lv) ==
             THEN SeqRun(s, t, p + 1, SubSeq(fs, 1, Len(fs) - 1), en, b, (ob \o GuardObs(fs, Len(fs), Len(fs))) \o <<[k |-> "ok", m |-> 0]>>, sn,
                         Append(lv, L - (IF fs[Len(fs)].catching THEN 1 ELSE 0)))
        ELSE IF o = "bt" THEN SeqRun(s, t, p + 1, fs, en, b, Append(ob, [k |-> "bt", m |-> b]), sn, Append(lv, L))
+       \* "swallow": a panic raised and recovered from on the spot by a plain std::panic::catch_unwind that is no catcher
+       \* frame.  The hook sees it like any panic (recorded when a catching frame is open, handed to the previous hook
+       \* otherwise); nothing unwinds past the step, and a later panic of the frame is reported with its own message.
+       ELSE IF o = "swallow"
+            THEN IF CatchingIdx(fs) = {} THEN SeqRun(s, t, p + 1, fs, en, b, ob, sn + 1, Append(lv, L))
+                 ELSE SeqRun(s, t, p + 1, fs, en, MsgId(t, p), ob, sn, Append(lv, L))
        ELSE IF o = "panic"
             THEN LET m == MsgId(t, p)
                      C == CatchingIdx(fs)
